@@ -364,7 +364,7 @@ def observe(P, fr):
                 frames_after_exit=after_exit, status_n=status_n)
 
 
-def raw_client(dm, kind, blob, rng, expect_out_len=None, io_timeout=120.0, hold=0.05):
+def raw_client(dm, kind, blob, rng, expect_out_len=None, io_timeout=120.0, hold=0.05, barrier=None):
     """Play one client behaviour of Vmd.tla (Request(kind) + the scripted disconnect) over a raw socket."""
     P = dm.P
     EX = P["VMD_MSG_LOAD_EXEC"]
@@ -396,7 +396,17 @@ def raw_client(dm, kind, blob, rng, expect_out_len=None, io_timeout=120.0, hold=
             return dict(reply="closed", stdout=b"", stderr=b"", exit=None, unobserved=True)
 
         if kind == "exec":
-            send(header(P, EX, len(blob)) + blob)
+            if barrier is not None:
+                # all sessions of the round are parked in recv_payload, then proceed together: their threads
+                # are alive at the same time whatever the scheduler does (first-use races need that)
+                send(header(P, EX, len(blob)))
+                try:
+                    barrier.wait(timeout=10)
+                except threading.BrokenBarrierError:
+                    pass
+                send(blob)
+            else:
+                send(header(P, EX, len(blob)) + blob)
             o = finish_read(stop_types=(P["VMD_MSG_EXIT_CODE"],))
             if o["reply"] == "exit":     # anything after the exit frame?
                 s.settimeout(5.0)
@@ -513,7 +523,7 @@ def standalone(nano_vm, nvm_path, env=None, timeout=120.0):
 
 
 # ----------------------------------------------------------------- scenario player
-def play(dm, clients, rng, nano_vm, workdir, jitter_ms=3.0):
+def play(dm, clients, rng, nano_vm, workdir, jitter_ms=3.0, sync_payload=False):
     """clients: list of dict(id, kind, via, blob, path, expect_out_len, after=<index or None>, delay).
     Starts one thread per client; `after` = index of the client that has to be finished first ("after" gap of
     the spec's arrival schedule), otherwise clients start together, perturbed by a seeded jitter.
@@ -522,6 +532,8 @@ def play(dm, clients, rng, nano_vm, workdir, jitter_ms=3.0):
     done = [threading.Event() for _ in clients]
     seeds = [rng.getrandbits(32) for _ in clients]
     delays = [rng.random() * jitter_ms / 1000.0 for _ in clients]
+    nsync = sum(1 for c in clients if c["via"] == "raw" and c["kind"] == "exec" and c.get("after") is None)
+    barrier = threading.Barrier(nsync) if sync_payload and nsync > 1 else None
 
     def run(i):
         c = clients[i]
@@ -533,7 +545,8 @@ def play(dm, clients, rng, nano_vm, workdir, jitter_ms=3.0):
             if c["via"] == "cli":
                 res[i] = cli_client(dm, nano_vm, c["path"], workdir, "c%s" % c["id"])
             else:
-                res[i] = raw_client(dm, c["kind"], c["blob"], r, expect_out_len=c.get("expect_out_len"))
+                res[i] = raw_client(dm, c["kind"], c["blob"], r, expect_out_len=c.get("expect_out_len"),
+                                    barrier=barrier if (c["kind"] == "exec" and c.get("after") is None) else None)
         except Exception as e:          # a broken driver must not look like a verdict
             res[i] = dict(via=c["via"], kind=c["kind"], reply="driver_error", error=repr(e), stdout=b"", stderr=b"",
                           exit=None)
